@@ -13,6 +13,19 @@ def check(run):
     if not bad.get("violated"):
         raise Inconclusive("Once.tla with EarlyRead=TRUE should violate ReturnsShared")
     run.notes.append("Once.tla with EarlyRead=TRUE violates ReturnsShared as expected")
+    if not q:
+        # unbounded in the length of the behaviour: an inductive invariant of the design (5 callers), discharged by Apalache in three
+        # obligations, with a weakened invariant as negative control
+        c5 = ["--cinit=CInit"]
+        ok1, _ = apalache(run, "once", "OnceInd", c5 + ["--init=Init", "--inv=IndInv", "--length=0"])
+        ok2, _ = apalache(run, "once", "OnceInd", c5 + ["--init=IndInit", "--inv=IndInv", "--length=1"])
+        ok3, _ = apalache(run, "once", "OnceInd", c5 + ["--init=IndInit", "--inv=Props", "--length=0"])
+        weak, _ = apalache(run, "once", "OnceInd", c5 + ["--init=WeakInit", "--inv=WeakInv", "--length=1"])
+        if not (ok1 and ok2 and ok3) or weak:
+            raise Inconclusive("OnceInd.tla: inductive invariant obligations Init=>Inv %s, Inv/\\Next=>Inv' %s, Inv=>Props %s; weakened invariant "
+                               "inductive (should not be): %s" % (ok1, ok2, ok3, weak))
+        run.notes.append("Apalache: IndInv of OnceInd.tla is inductive for 5 callers and implies AtMostOneRun, ReturnsShared, FieldDiscipline "
+                         "(behaviours of any length); the weakened invariant is rejected as expected")
     scs = []
     rng_b = range(0, 4) if q else range(0, 5)
     for arity in (1, 2, 3):
